@@ -90,6 +90,7 @@ class F:
 
 
 _CLASS_CACHE: t.Dict[str, t.Any] = {}
+POST_COUNTS: t.Dict[str, int] = {}   # class key -> number of __post_init__ calls (classes with 'count_post')
 FRESH = [False]   # when set, build() makes a brand-new class object (determinism / history checks)
 _DEFAULT_CACHE: t.Dict[t.Tuple[str, str], t.Any] = {}
 
@@ -276,12 +277,15 @@ class ClsNode(Node):
                     continue
             if kw:
                 ns[f.name] = pane.field(**kw)
-        if self.post is not None:
-            fname = self.post[1]
-            img = self.post_image()[0]
+        count_key = self.key if self.cs.get('count_post') else None
+        if self.post is not None or count_key is not None:
+            fname = self.post[1] if self.post is not None else None
+            img = self.post_image()[0] if self.post is not None else None
 
             def __post_init__(self):
-                if same(getattr(self, fname), img) is None:
+                if count_key is not None:
+                    POST_COUNTS[count_key] = POST_COUNTS.get(count_key, 0) + 1
+                if fname is not None and same(getattr(self, fname), img) is None:
                     raise PostInitBoom("tok_post_init_boom")
             ns['__post_init__'] = __post_init__
         opts = {k: (tuple(v) if isinstance(v, list) else v) for (k, v) in self.opts.items()}
